@@ -23,6 +23,8 @@ import json
 import logging
 
 from ..translate import c07 as tr
+from ..translate import c07ctx as cx
+from ..translate import corevm as cvt
 
 PROPERTY = "C07"
 THEOREM_MODULE = "NemoVerif.Theorems.C07"
@@ -31,25 +33,37 @@ RULE = ("formula: random n-ary and/or tree (norm: <=12 leaves, depth<=5, <=6 dis
         "e2e sequences over the atoms' events plus one irrelevant event, length<=6: permutations, random with repeats, "
         "prefix-of-satisfying; thorough additionally enumerates ALL and/or trees with <=3 leaves over <=3 atoms x ALL "
         "sequences of length<=4 over atoms+irrelevant (match), and all arrival orders (up to 720) of the atoms+irrelevant for 96 sampled formulas, all trees <=2 leaves x all sequences <=4 with failure events (awaitf/whenf), all trees <=3 leaves x all sequences <=3 (await/when). "
-        "non-trivial = formula mixes and/or or has >=3 leaves, and (e2e) some sequence completes the group after its first event; "
+        "expand: also whole `when` statements (1-3 cases, optional else, events and flows mixed); e2e ops with failing flows (awaitf/whenf/whenfe) compare marker, failure path and "
+        "running child flows after every event with the flow-level machine; ctx: group statements in context (templates loop / loop2 / seq2 / whenbody / nestwhen / subgroup, every third "
+        "round with failing flows and else branches), sequences <=9 with several rounds of all atoms; thorough: every tree <=2 leaves re-entered in a loop x all sequences <=5 (match/await/when), "
+        "trees with 3 leaves x all sequences <=4 (match). "
+        "non-trivial = formula mixes and/or or has >=3 leaves, and (e2e) some sequence completes the group after its first event, (ctx) some sequence produces >=2 markers; "
         "distinct = distinct case JSON.")
 TRUSTED_BASE = [
     "correspondence harness harness/props/C07.py + Lean driver Drive/C07.lean (JSON codecs; names canonicalised by first appearance)",
     "the repo's Colang 2.x parser (used to build the group dicts from source text; the intended formula is compared with the parsed one)",
-    "abstraction step: Dnf.markers models the fork/merge/wait head protocol as 'one head per atom per and-clause'; that the real "
-    "interpreter behaves like it is checked by execution (e2e correspondence) and structurally (readBack of the real element list), not proved",
+    "abstraction step: Dnf.markers models the fork/merge/wait head protocol as 'one head per atom per and-clause'; GroupVM refines it (proved); that the real "
+    "interpreter behaves like GroupVM is proved for phase 1 over the interpreter model CoreVM (clause segments) and otherwise checked by execution (heads of the real flow = GroupVM = CoreVM "
+    "after every event) and structurally (readBack of the real element lists)",
+    "GroupFlow (await/when over flows: child instances, Finished/Failed, failure path, clean-up) abstracts StartFlow/FlowFinished/FlowFailed/scopes; checked by execution after every event",
+    "harness/translate/c07ctx.py: the sequencing of group statements in context (shared by oracle and model comparison; the first-satisfaction function differs)",
 ]
 ASSUMPTIONS = [
     "atoms are parameterless events `E<i>()` / flows `f<i>` (flow f<i> = `match E<i>()`), distinct index = distinct event; argument matching is C04",
     "after the group the program parks on `match Never()` so that the restarting main flow cannot produce a second marker",
-    "modelled by hand: normalize_element_groups, flatten_or_group, the group branches of _expand_match_element",
+    "modelled by hand: normalize_element_groups, flatten_or_group, the group branches of _expand_match_element / _expand_await_element, _expand_when_stmt_element",
+    "sub-flows f<i> finish on E<i> and (failing ops) fail on F<i>; all running instances of one flow react to the same event",
 ]
 EXHAUSTIVE = {"quick": False, "thorough": True}
 
 IRR = 9  # index of the irrelevant event "X"
 FAIL = 100  # event FAIL+i makes flow f<i> fail (ops awaitf / whenf only)
 # when2: the top-level `or` of the formula is spelled as two cases `when g1 / send Hit()` `or when g2 / send Hit2()`
-OPS = ["match", "await", "when", "whenmix", "awaitf", "whenf", "when2"]
+OPS = ["match", "await", "when", "whenmix", "awaitf", "whenf", "when2", "whenfe"]
+# ops whose atoms are all flows and whose statement is one group: compared with the flow-level machine `GroupFlow` (T3)
+COREVM_SEQS = 6  # sequences per match case that are also run through CoreVM
+FAIL_OPS = ("awaitf", "whenf", "whenfe")
+FLOW_OPS = ("await", "when", "awaitf", "whenf", "whenfe")
 
 
 def translate():
@@ -175,14 +189,14 @@ def renderable(g, top=True):
 def kinds_for(op, rng=None, g=None):
     if op == "match":
         return ["ev"] * 10
-    if op in ("await", "when", "awaitf", "whenf", "when2"):
+    if op in ("await", "when", "awaitf", "whenf", "when2", "whenfe"):
         return ["flow"] * 10
     ks = [rng.choice(["ev", "flow"]) for _ in range(10)]
     return ks
 
 
 def program(op, g, kinds, minimal=False):
-    if op in ("awaitf", "whenf"):
+    if op in ("awaitf", "whenf", "whenfe"):
         # sub-flows that finish on E<i> and fail on F<i>
         subs = "".join(f"flow f{i}\n  when E{i}()\n    return\n  or when F{i}()\n    abort\n\n" for i in sorted(set(atoms_of(g))))
     else:
@@ -192,6 +206,8 @@ def program(op, g, kinds, minimal=False):
         body = f"  match {grp}\n  send Hit()\n"
     elif op in ("await", "awaitf"):
         body = f"  await {grp}\n  send Hit()\n"
+    elif op == "whenfe":
+        body = f"  when {grp}\n    send Hit()\n  else\n    send Hit2()\n"
     elif op == "when2":
         g1, g2 = g["or"]
         body = f"  when {render(g1, kinds, minimal)}\n    send Hit()\n  or when {render(g2, kinds, minimal)}\n    send Hit2()\n"
@@ -255,6 +271,11 @@ def gen_cases(rng, tier):
     for _ in range(n_expand):
         g = g_formula(rng, rng.randint(1, 6), rng.randint(1, 10), rng.randint(1, 4))
         cases.append({"kind": "expand", "g": g, "stmt": "await"} if _ % 3 == 2 else {"kind": "expand", "g": g})
+    for _ in range(n_expand // 3):
+        n_atoms = rng.randint(1, 5)
+        cs = [g_formula(rng, n_atoms, rng.randint(1, 6), rng.randint(0, 3)) for _ in range(rng.choice([1, 1, 2, 2, 3]))]
+        kinds = [rng.choice(["ev", "flow", "flow"]) for _ in range(5)]
+        cases.append({"kind": "expand", "stmt": "when", "cases": cs, "g": {"or": cs}, "kinds": kinds, "else": rng.random() < 0.4})
     for i in range(n_e2e):
         op = OPS[i % len(OPS)]
         n_atoms = rng.randint(1, 5)
@@ -262,7 +283,7 @@ def gen_cases(rng, tier):
         if op == "when2":
             g = {"or": [g_formula(rng, n_atoms, rng.randint(1, 4), rng.randint(0, 3)), g_formula(rng, n_atoms, rng.randint(1, 4), rng.randint(0, 3))]}
         kinds = kinds_for(op, rng, g)
-        cases.append({"kind": "e2e", "op": op, "g": g, "kinds": kinds[:5], "minimal": rng.random() < 0.3, "seqs": g_seqs(rng, g, n_seq, fails=op.endswith("f"))})
+        cases.append({"kind": "e2e", "op": op, "g": g, "kinds": kinds[:5], "minimal": rng.random() < 0.3, "seqs": g_seqs(rng, g, n_seq, fails=op in FAIL_OPS)})
     if not quick:
         # exhaustive small scope: all trees with <= 3 leaves over <= 3 atoms x all sequences of length <= 4
         for leaves in (2, 3):
@@ -278,7 +299,7 @@ def gen_cases(rng, tier):
             al = sorted(set(atoms_of(g))) + [IRR]
             cases.append({"kind": "e2e", "op": op, "g": g, "kinds": kinds_for(op, rng, g)[:5], "minimal": False, "seqs": [list(p) for p in itertools.permutations(al)]})
         # failing sub-flows: all trees with <= 2 leaves, all sequences of length <= 4 over finish/fail events + irrelevant
-        for op in ("awaitf", "whenf"):
+        for op in FAIL_OPS:
             for g in all_trees(2, 2):
                 al = sorted(set(atoms_of(g)))
                 cases.append({"kind": "e2e", "op": op, "g": g, "kinds": ["flow"] * 5, "minimal": False, "seqs": list(all_seqs(al + [FAIL + a for a in al] + [IRR], 4))})
@@ -288,9 +309,29 @@ def gen_cases(rng, tier):
                 for g in all_trees(leaves, min(leaves, 3)):
                     al = sorted(set(atoms_of(g))) + [IRR]
                     cases.append({"kind": "e2e", "op": op, "g": g, "kinds": ["flow"] * 5, "minimal": False, "seqs": list(all_seqs(al, 3))})
+    # group statements in context: re-entered in loops, in sequence, nested in `when` bodies, behind a sub-flow
+    n_ctx, n_cseq = (150, 10) if quick else (1200, 20)
+    for i in range(n_ctx):
+        n_atoms = rng.randint(2, 4)
+        gf = lambda mx: g_formula(rng, n_atoms, rng.randint(1, mx), rng.randint(1, 3))  # noqa: E731
+        tmpl = cx.TEMPLATES[i % len(cx.TEMPLATES)]
+        fail = tmpl != "subgroup" and (i // len(cx.TEMPLATES)) % 3 == 2  # every third round: flows that can fail, else branches
+        tmpl, prog, subs = cx.gen_prog(rng, gf, tmpl, fail)
+        cases.append(ctx_case(tmpl, prog, subs, cx.gen_seqs(rng, prog, subs, n_cseq, fail=fail), fail))
+    if not quick:
+        # every tree with <= 2 leaves re-entered in a loop, all sequences of length <= 5 (match / await / when)
+        for kind in ("match", "await", "when"):
+            for g in list(all_trees(1, 1)) + list(all_trees(2, 2)):
+                al = sorted(set(atoms_of(g))) + [IRR]
+                body = [{"grp": "when", "cases": [{"g": g, "body": [{"send": "Hit"}]}], "kinds": "fffff"}] if kind == "when" else \
+                    [{"grp": kind, "cases": [{"g": g, "body": []}]}, {"send": "Hit"}]
+                cases.append(ctx_case("loop", [{"loop": body}], {}, list(cx.all_seqs(al, 5))))
+        for g in all_trees(3, 3):
+            al = sorted(set(atoms_of(g))) + [IRR]
+            cases.append(ctx_case("loop", [{"loop": [{"grp": "match", "cases": [{"g": g, "body": []}]}, {"send": "Hit"}]}], {}, list(cx.all_seqs(al, 4))))
     # spread the expensive end-to-end cases evenly over the list (balanced work for the worker pool)
-    heavy = [c for c in cases if c["kind"] == "e2e"]
-    light = [c for c in cases if c["kind"] != "e2e"]
+    heavy = [c for c in cases if c["kind"] in ("e2e", "ctx")]
+    light = [c for c in cases if c["kind"] not in ("e2e", "ctx")]
     if heavy:
         step = max(1, len(light) // len(heavy))
         out = []
@@ -300,6 +341,11 @@ def gen_cases(rng, tier):
         out.extend(light[len(heavy) * step:])
         cases = out
     return cases
+
+
+def ctx_case(tmpl, prog, subs, seqs, fail=False):
+    gs = cx.groups_of(prog)
+    return {"kind": "ctx", "tmpl": tmpl, "prog": prog, "subs": subs, "fail": fail, "g": cx.subst(gs[0][1], subs), "seqs": seqs}
 
 
 def escalate(rng, focus, tier):
@@ -344,6 +390,40 @@ def worker_init():
 
 def _quiet():
     return contextlib.redirect_stdout(io.StringIO())
+
+
+class _Stuck(Exception):
+    pass
+
+
+@contextlib.contextmanager
+def _time_limit(seconds):
+    """a changed interpreter may never come to rest (e.g. a loop whose group completes without any event): turn that into an observation.
+    The limit is on the CPU time of this process (a busy machine that starves the process must not produce an observation);
+    a wall-clock limit of 30 x seconds is the backstop for an interpreter that blocks without computing."""
+    import signal
+
+    def _h(signum, frame):
+        raise _Stuck(f"run_to_completion did not return within {seconds} s of CPU time")
+
+    def _hw(signum, frame):
+        raise _Stuck(f"run_to_completion did not return within {30 * seconds} s")
+
+    try:
+        old = signal.signal(signal.SIGVTALRM, _h)
+        oldw = signal.signal(signal.SIGALRM, _hw)
+    except ValueError:  # not in the main thread: no guard
+        yield
+        return
+    signal.setitimer(signal.ITIMER_VIRTUAL, seconds)
+    signal.setitimer(signal.ITIMER_REAL, 30 * seconds)
+    try:
+        yield
+    finally:
+        signal.setitimer(signal.ITIMER_VIRTUAL, 0)
+        signal.setitimer(signal.ITIMER_REAL, 0)
+        signal.signal(signal.SIGVTALRM, old)
+        signal.signal(signal.SIGALRM, oldw)
 
 
 def spec_to_json(x):
@@ -418,8 +498,11 @@ def prims_to_json(elements):
             sp = e.spec
             j = spec_to_json(sp)
             started = _start_args(sp) if isinstance(sp, A.Spec) else None
+            mk = re.fullmatch(r"M(\d+|E)", sp.name or "") if isinstance(sp, A.Spec) else None
             if e.op == "match" and "a" in j:
                 out.append(["match", j["a"]])
+            elif e.op == "send" and mk and not sp.arguments and sp.members is None and sp.ref is None:
+                out.append(["send", 99 if mk.group(1) == "E" else int(mk.group(1))])
             elif e.op == "send" and started and sp.name == "StartFlow" and sp.ref is None:
                 out.append(["sendStart", started[0], nm(started[1])])
             elif e.op == "match" and started and sp.name == "FlowStarted" and e.info.get("internal") is True and isinstance(sp.ref, dict):
@@ -504,6 +587,8 @@ def run_impl(case):
         return run_expand(case)
     if kind == "e2e":
         return run_e2e(case)
+    if kind == "ctx":
+        return run_ctx(case)
     raise ValueError(kind)
 
 
@@ -533,12 +618,47 @@ def run_expand(case):
     g = case["g"]
     A = _M["ast"]
     obs = {}
+    if case.get("stmt") == "when":
+        return run_expand_when(case)
     try:
         stmt = case.get("stmt", "match")
         kind = "ev" if stmt == "match" else "flow"
         grp = json_to_spec(g, kind) if not renderable(g) else parse_group(stmt, g, kinds_for(stmt), False)[2]
         obs["g_seen"] = spec_to_json(grp)
         els = _M["ex"].expand_elements([A.SpecOp(op=stmt, spec=grp)], {})
+        obs["prims"] = prims_to_json(els)
+    except Exception as e:  # noqa
+        obs["exc"] = f"{type(e).__name__}: {e}"[:200]
+    return obs
+
+
+def when_program(cases, kinds, has_else):
+    """`when g_0 / send M0() or when g_1 / send M1() … [else / send ME()]` over events E<i> and flows f<i>"""
+    atoms = sorted({a for g in cases for a in atoms_of(g)})
+    subs = "".join(f"flow f{i}\n  match E{i}()\n\n" for i in atoms if kinds[i] == "flow")
+    body = ""
+    for i, g in enumerate(cases):
+        body += f"  {'when' if i == 0 else 'or when'} {render(g, kinds)}\n    send M{i}()\n"
+    if has_else:
+        body += "  else\n    send ME()\n"
+    return subs + "flow main\n" + body + "  match Never()\n"
+
+
+def run_expand_when(case):
+    """the whole `when` statement (several cases, optional else) through the parser and ALL passes of expand_elements"""
+    A = _M["ast"]
+    obs = {}
+    try:
+        kinds = case["kinds"] + ["ev"] * 10
+        src = when_program(case["cases"], kinds, case.get("else", False))
+        obs["src"] = src
+        with _quiet():
+            r = _M["parse"](filename="", content=src, include_source_mapping=False, version="2.x")
+        main = [f for f in r["flows"] if f.name == "main"][0]
+        wh = [el for el in main.elements if isinstance(el, A.When)][0]
+        obs["gs_seen"] = [spec_to_json(x) for x in wh.when_specs]
+        obs["g_seen"] = {"or": obs["gs_seen"]}
+        els = _M["ex"].expand_elements([wh], _M["cfgs"](r["flows"]))
         obs["prims"] = prims_to_json(els)
     except Exception as e:  # noqa
         obs["exc"] = f"{type(e).__name__}: {e}"[:200]
@@ -552,37 +672,90 @@ def run_e2e(case):
         src, flows, grp = parse_group(case["op"], case["g"], case["kinds"] + ["ev"] * 10, case.get("minimal", False))
         obs["src"] = src
         obs["g_seen"] = spec_to_json(grp)
-        with _quiet():
+        with _quiet(), _time_limit(20):
             st = _M["State"](flow_states=[], flow_configs=_M["cfgs"](flows))
             sm.initialize_state(st)
             sm.run_to_completion(st, _M["InternalEvent"](name="StartFlow", arguments={"flow_id": "main"}))
         obs["start_out"] = sorted({e.get("type") for e in st.outgoing_events})
         obs["main_after_start"] = _main_status(st)
         obs["heads_init"] = _heads(st)
+        obs["kids_init"] = _kids(st)
+        if case["op"] == "match":
+            # the expanded program as data for the whole-interpreter model CoreVM (import-only, Models/CoreVM)
+            try:
+                obs["prog"] = cvt.program_to_json(st)
+            except Exception as e:  # noqa
+                obs["prog_exc"] = f"{type(e).__name__}: {e}"[:200]
     except Exception as e:  # noqa
         obs["build_exc"] = f"{type(e).__name__}: {e}"[:300]
         return obs
     runs = []
     for seq in case["seqs"]:
         s = copy.deepcopy(st)
-        hits, extra, exc, which, heads = [], set(), None, [], []
+        hits, extra, exc, which, heads, fails, kids, mains, nch = [], set(), None, [], [], [], [], [], []
         import random as _random
 
         _CH["rng"] = _random.Random(json.dumps([case["g"], seq]))
         _CH["log"] = []
         try:
-            with _quiet():
+            with _quiet(), _time_limit(20):
                 for a in seq:
                     sm.run_to_completion(s, {"type": ev_name(a)})
                     got = [e.get("type") for e in s.outgoing_events if e.get("type") in ("Hit", "Hit2")]
-                    hits.append(len(got))
-                    which.extend(got)
+                    if case["op"] == "whenfe":
+                        hits.append(got.count("Hit"))
+                        fails.append(got.count("Hit2"))
+                        which.extend(x for x in got if x == "Hit")
+                    else:
+                        hits.append(len(got))
+                        which.extend(got)
+                    if case["op"] in FLOW_OPS:
+                        kids.append(_kids(s))
+                        mains.append(_main_status(s))
                     extra.update(e.get("type") for e in s.outgoing_events if e.get("type") not in ("Hit", "Hit2"))
                     if case["op"] == "match":
                         heads.append(_heads(s))
+                        nch.append(len(_CH["log"]))
         except Exception as e:  # noqa
             exc = f"{type(e).__name__}: {e}"[:200]
-        runs.append({"hits": hits, "which": which, "extra": sorted(extra), "exc": exc, "main": _main_status(s), "heads": heads, "choices": list(_CH["log"])})
+        runs.append({"hits": hits, "which": which, "extra": sorted(extra), "exc": exc, "main": _main_status(s), "heads": heads, "choices": list(_CH["log"]),
+                     "fails": fails, "kids": kids, "mains": mains, "nch": nch})
+    obs["runs"] = runs
+    return obs
+
+
+def run_ctx(case):
+    """a program with group statements in context (loops, sequences, nested when bodies, sub-flows): per event the markers"""
+    sm = _M["sm"]
+    obs = {}
+    try:
+        src = cx.program(case["prog"], case["subs"], case.get("fail", False))
+        obs["src"] = src
+        with _quiet(), _time_limit(20):
+            r = _M["parse"](filename="", content=src, include_source_mapping=False, version="2.x")
+            st = _M["State"](flow_states=[], flow_configs=_M["cfgs"](r["flows"]))
+            sm.initialize_state(st)
+            sm.run_to_completion(st, _M["InternalEvent"](name="StartFlow", arguments={"flow_id": "main"}))
+        obs["start_out"] = sorted({e.get("type") for e in st.outgoing_events if str(e.get("type")).startswith("Hit")})
+        obs["main_after_start"] = _main_status(st)
+    except Exception as e:  # noqa
+        obs["build_exc"] = f"{type(e).__name__}: {e}"[:300]
+        return obs
+    runs = []
+    import random as _random
+    for seq in case["seqs"]:
+        s = copy.deepcopy(st)
+        marks, exc = [], None
+        _CH["rng"] = _random.Random(json.dumps([case["g"], seq]))
+        _CH["log"] = []
+        try:
+            with _quiet(), _time_limit(20):
+                for a in seq:
+                    sm.run_to_completion(s, {"type": ev_name(a)})
+                    marks.append([e.get("type") for e in s.outgoing_events if str(e.get("type")).startswith("Hit")])
+        except Exception as e:  # noqa
+            exc = f"{type(e).__name__}: {e}"[:200]
+        runs.append({"marks": marks, "exc": exc, "main": _main_status(s), "n_flow_states": len(s.flow_states)})
     obs["runs"] = runs
     return obs
 
@@ -594,6 +767,26 @@ def _heads(st):
         return sorted([h.position - 1, STATUS_CODE.get(h.status.name, 9)] for h in fs.heads.values())
     except Exception as e:  # noqa
         return [["?", type(e).__name__]]
+
+
+def _kids(st):
+    """atoms of the child-flow instances f<i> that are still running"""
+    try:
+        return sorted(int(fs.flow_id[1:]) for fs in st.flow_states.values()
+                      if re.fullmatch(r"f\d+", fs.flow_id) and fs.status.name in ("WAITING", "STARTING", "STARTED"))
+    except Exception as e:  # noqa
+        return ["?", type(e).__name__]
+
+
+def failure_events(case, run):
+    """per event: was the failure path of the statement taken while processing it? (else branch / main flow aborted)"""
+    if case["op"] == "whenfe":
+        return list(run["fails"])
+    out, prev = [], "STARTED"
+    for m in run["mains"]:
+        out.append(1 if (m != "STARTED" and prev == "STARTED") else 0)
+        prev = m
+    return out
 
 
 def ev_name(a):
@@ -615,17 +808,72 @@ def _has_unknown(j):
 
 def model_requests(case, obs):
     kind = case["kind"]
+    if kind == "ctx":
+        # one activation of each (substituted) group formula on every suffix of every sequence
+        reqs = []
+        for kind_, g in ctx_formulas(case):
+            sufs = [cx.view(kind_, seq)[i:] for seq in case["seqs"] for i in range(len(seq))]
+            reqs.append({"m": "C07.flow", "g": g, "seqs": sufs} if case.get("fail") else {"m": "C07.markers", "g": g, "seqs": sufs})
+        return reqs
     if "g_seen" not in obs or _has_unknown(obs["g_seen"]):
         return []
     if kind == "norm":
         return [{"m": "C07.normalize", "g": obs["g_seen"]}]
+    if kind == "expand" and case.get("stmt") == "when":
+        kinds = case["kinds"] + ["ev"] * 10
+        atoms = sorted({a for g in obs["gs_seen"] for a in atoms_of(g)})
+        return [{"m": "C07.expandWhen", "cases": [{"g": g, "body": [["send", i]]} for i, g in enumerate(obs["gs_seen"])],
+                 "else": [["send", 99]] if case.get("else") else None, "flows": [a for a in atoms if kinds[a] == "flow"],
+                 "prims": obs.get("prims", [])}]
     if kind == "expand":
         return [{"m": "C07.expandAwait" if case.get("stmt") == "await" else "C07.expand", "g": obs["g_seen"], "prims": obs.get("prims", [])}]
     reqs = [{"m": "C07.markers", "g": obs["g_seen"], "seqs": [finish_view(s) for s in case["seqs"]]}]
     if case["op"] == "match" and "runs" in obs:
         # head-level machine with the tie-breaks the interpreter drew
         reqs.append({"m": "C07.vm", "g": obs["g_seen"], "seqs": case["seqs"], "choices": [r["choices"] for r in obs["runs"]]})
+    if case["op"] == "match" and "runs" in obs and "prog" in obs:
+        # CoreVM (the whole-interpreter model) on the same expanded program, same events, same tie-breaks: GroupVM ⇔ CoreVM by execution
+        for seq, r in list(zip(case["seqs"], obs["runs"]))[:COREVM_SEQS]:
+            evs = [{"ev": {"kind": "internal", "name": "StartFlow", "args": [["flow_id", {"s": "main"}]]}, "choices": []}]
+            prev = 0
+            for a, n in zip(seq, r["nch"]):
+                evs.append({"ev": {"kind": "plain", "name": ev_name(a), "args": []}, "choices": r["choices"][prev:n]})
+                prev = n
+            reqs.append({"m": "CoreVMJson.run", "prog": obs["prog"], "events": evs, "fuel": 400})
+    if case["op"] in FLOW_OPS and "runs" in obs:
+        # flow-level machine (child flows, Finished / Failed, failure path, clean-up of the losers)
+        reqs.append({"m": "C07.flow", "g": obs["g_seen"], "seqs": case["seqs"]})
     return reqs
+
+
+def ctx_formulas(case):
+    """the distinct (statement view, substituted formula) pairs of the program; view = "match" (events) or "flow" """
+    out = []
+    for k, g in cx.groups_of(case["prog"]):
+        x = ("match" if k == "match" else "flow", cx.subst(g, case["subs"]))
+        if x not in out:
+            out.append(x)
+    return out
+
+
+def ctx_check(case, obs, first_sat, who):
+    if "build_exc" in obs:
+        return "program with the group statements did not build/start: " + obs["build_exc"]
+    if obs.get("start_out"):
+        return f"markers {obs['start_out']} emitted before any event was received"
+    for seq, run in zip(case["seqs"], obs["runs"]):
+        if run["exc"]:
+            return f"sequence {seq}: run_to_completion raised {run['exc']}"
+        got = (tuple(tuple(x) for x in run["marks"]), run["main"] != "STARTED")
+        poss = cx.traces(case["prog"], case["subs"], seq, first_sat)
+        if got not in poss:
+            exp = sorted(poss)[0]
+            k = next((i for i, (a, b) in enumerate(zip(got[0], exp[0])) if a != b), None)
+            return (f"{case['tmpl']} program: sequence {seq}: markers per event {[list(x) for x in got[0]]}, main flow {run['main']}, but {who} "
+                    f"{[list(x) for x in exp[0]]}{', main flow aborted by a failing group' if exp[1] else ''}"
+                    f"{' (or ' + str(len(poss) - 1) + ' other tie outcomes)' if len(poss) > 1 else ''}; first difference at index {k} "
+                    f"(every group statement completes at the first prefix, since IT became active, that satisfies its formula)")
+    return None
 
 
 def finish_view(seq):
@@ -649,6 +897,22 @@ def finish_view(seq):
 def compare(case, obs, mouts):
     m = mouts[0]
     kind = case["kind"]
+    if kind == "ctx":
+        table = {}
+        sufs = [(tuple(seq), i) for seq in case["seqs"] for i in range(len(seq))]
+        for (kind_, g), mo in zip(ctx_formulas(case), mouts):
+            if case.get("fail"):
+                for (sq, i), tr_ in zip(sufs, mo["runs"]):
+                    os_ = [st_["o"] for st_ in tr_]
+                    table[(kind_, json.dumps(g), sq, i)] = ((i + os_.index(1)) if 1 in os_ else None, (i + os_.index(2)) if 2 in os_ else None)
+            else:
+                for (sq, i), mk in zip(sufs, mo["markers"]):
+                    table[(kind_, json.dumps(g), sq, i)] = ((i + mk.index(True)) if True in mk else None, None)
+
+        def outcome_model(kind_, g, seq, i):
+            return table.get(("match" if kind_ == "match" else "flow", json.dumps(g), tuple(seq), i), (None, None))
+
+        return ctx_check(case, obs, outcome_model, "the model (Dnf.markers / GroupFlow.outs per activation) gives")
     if kind == "norm":
         if "exc" in obs:
             return f"normalize_element_groups raised {obs['exc']}, model returned {json.dumps(m['norm'])[:120]}"
@@ -664,6 +928,8 @@ def compare(case, obs, mouts):
             return f"expanded element list differs from the model at index {i}: impl {obs['prims'][i:i + 3]} model {mp[i:i + 3]}"
         if m["readback"] != m["dnf"]:
             return f"readBack of the real element list = {m['readback']} but normalize gives {m['dnf']}"
+        if case.get("stmt") == "when":
+            return None  # (labels of a when statement are duplicated by construction: the code emits case / else groups repeatedly)
         if not m["distinct"]:
             return "label names of the real element list are not distinct"
         return None
@@ -676,6 +942,19 @@ def compare(case, obs, mouts):
         if not case["op"].endswith("f") and run["main"] != "STARTED":
             # model: after completion no head of the group is left, before completion the heads just wait
             return f"sequence {seq}: main flow ended in status {run['main']} (model: it keeps waiting on `match Never()`)"
+    if case["op"] in FLOW_OPS and len(mouts) > 1:
+        fl = mouts[-1]
+        if sorted(fl["init"]) != obs.get("kids_init"):
+            return f"child flows running after the statement was reached: implementation {obs.get('kids_init')}, flow-level model {sorted(fl['init'])}"
+        for seq, run, tr in zip(case["seqs"], obs["runs"], fl["runs"]):
+            fe = failure_events(case, run)
+            for k, step in enumerate(tr):
+                if (1 if step["o"] == 1 else 0) != run["hits"][k] or (1 if step["o"] == 2 else 0) != fe[k]:
+                    return (f"sequence {seq} event {k}: flow-level model says {['nothing', 'marker', 'failure path'][step['o']]}, implementation "
+                            f"hits {run['hits']} failure path {fe} (main {run['mains']})")
+                if sorted(step["ch"]) != run["kids"][k]:
+                    return f"sequence {seq} event {k}: running child flows implementation {run['kids'][k]}, flow-level model {sorted(step['ch'])}"
+        return None
     if len(mouts) > 1:
         v = mouts[1]
         if not v["nonempty"]:
@@ -688,6 +967,39 @@ def compare(case, obs, mouts):
                     return f"sequence {seq} event {k}: head-level model marker {step['m']}, implementation hits {run['hits']} (tie-breaks {run['choices']})"
                 if sorted(step["heads"]) != hreal:
                     return f"sequence {seq} event {k}: heads (position, status) implementation {hreal}, head-level model {sorted(step['heads'])} (tie-breaks {run['choices']})"
+        # GroupVM against CoreVM
+        for seq, run, tr, cvm in zip(case["seqs"], obs["runs"], v["runs"], mouts[2:]):
+            msg = corevm_vs_groupvm(seq, run, tr, cvm, v["init"])
+            if msg:
+                return msg
+    return None
+
+
+def corevm_heads(d):
+    """heads of the main flow in a CoreVM digest as [position - 1, status code], sorted"""
+    code = {"active": 0, "merging": 1, "inactive": 2}
+    for i in d.get("insts", []):
+        if i[1] == "main":
+            return sorted([h[0] - 1, code.get(h[1], 9)] for h in i[5])
+    return None
+
+
+def corevm_vs_groupvm(seq, run, tr, cvm, init):
+    """per event: CoreVM's main-flow heads and marker = GroupVM's (a digest with res != ok: CoreVM could not follow, not compared)"""
+    if not isinstance(cvm, list) or not cvm or any(d.get("res") != "ok" for d in cvm):
+        return None
+    if len(cvm) != len(seq) + 1:
+        return f"sequence {seq}: CoreVM processed {len(cvm) - 1} of {len(seq)} events"
+    if corevm_heads(cvm[0]) != sorted(init):
+        return f"heads after the group statement was reached: CoreVM {corevm_heads(cvm[0])}, head-level model {sorted(init)}"
+    for k, (step, d) in enumerate(zip(tr, cvm[1:])):
+        hit = sum(1 for o in d.get("out", []) if o[0] == "Hit")
+        if hit != (1 if step["m"] else 0):
+            return f"sequence {seq} event {k}: CoreVM emits {hit} markers, head-level model {step['m']} (tie-breaks {run['choices']})"
+        if corevm_heads(d) != sorted(step["heads"]):
+            return f"sequence {seq} event {k}: heads (position, status) CoreVM {corevm_heads(d)}, head-level model {sorted(step['heads'])} (tie-breaks {run['choices']})"
+        if d.get("choices_left", 0) != 0:
+            return f"sequence {seq} event {k}: CoreVM left {d.get('choices_left')} recorded tie-breaks unused"
     return None
 
 
@@ -725,6 +1037,14 @@ def _clauses_of_norm(n):
 def oracle(case, obs):
     kind = case["kind"]
     g = case["g"]
+    if kind == "ctx":
+        return ctx_check(case, obs, cx.outcome_py, "the formula says")
+    if kind == "expand" and case.get("stmt") == "when":
+        if "exc" in obs:
+            return None  # reported by the correspondence
+        if obs.get("gs_seen") != case["cases"]:
+            return f"the parser built {json.dumps(obs.get('gs_seen'))[:160]} for when cases spelled {json.dumps(case['cases'])[:160]}"
+        return None
     if kind in ("norm", "expand"):
         if "build_exc" in obs:
             return "could not build the group: " + obs["build_exc"]
@@ -759,6 +1079,18 @@ def oracle(case, obs):
             k = next(i for i, (a, b) in enumerate(zip(got, exp)) if a != b)
             what = "before the formula is satisfied" if got[k] > exp[k] and 1 not in exp[:k + 1] else ("again after completion" if got[k] > exp[k] else "not at the first satisfying prefix")
             return f"{case['op']} group {render(g, case['kinds'] + ['ev'] * 10)}: sequence {seq}: marker {what} (hits {got}, formula says {exp}, main flow {run['main']})"
+        if case["op"] in FAIL_OPS:
+            fe = failure_events(case, run)
+            fin, dead = set(), set()
+            for k, a in enumerate(seq):
+                if a >= FAIL:
+                    if a - FAIL not in fin:
+                        dead.add(a - FAIL)
+                elif a not in dead:
+                    fin.add(a)
+                if fe[k] and (1 in exp[:k + 1] or ev(g, set(atoms_of(g)) - dead)):
+                    return (f"{case['op']} group {render(g, case['kinds'] + ['ev'] * 10)}: sequence {seq}: the failure path was taken at index {k} although the "
+                            f"group {'had completed' if 1 in exp[:k + 1] else 'can still be satisfied (failed flows ' + str(sorted(dead)) + ')'}")
         if 1 in exp:
             k = exp.index(1)
             if case["op"] == "when2":
@@ -805,6 +1137,9 @@ def signature(case, obs, msg):
 def nontrivial(case, obs):
     g = case["g"]
     rich = len(ops_of(g)) == 2 or len(atoms_of(g)) >= 3
+    if case["kind"] == "ctx":
+        # some sequence re-enters a group statement / reaches a second stage
+        return any(sum(len(x) for x in r["marks"]) >= 2 for r in obs.get("runs", []))
     if case["kind"] != "e2e":
         return rich
     return rich and any(1 in expected_hits(g, s)[1:] for s in case["seqs"])
@@ -822,9 +1157,17 @@ def tags(case, obs):
         t.append("stmt:" + case.get("stmt", "match"))
     if case["kind"] == "expand" and "prims" in obs:
         t.append(f"prims:{len(obs['prims']) // 10 * 10}+")
+    if case["kind"] == "ctx":
+        t.append("tmpl:" + case["tmpl"] + ("+fail" if case.get("fail") else ""))
+        t.extend(sorted({"ctx-stmt:" + k for k, _ in cx.groups_of(case["prog"])}))
+        if "runs" in obs:
+            t.append(f"max-markers:{min(4, max([sum(len(x) for x in r['marks']) for r in obs['runs']] + [0]))}")
+            t.extend("main:" + m for m in sorted({r["main"] for r in obs["runs"]}))
     if case["kind"] == "e2e":
         t.append("op:" + case["op"])
         t.append(f"seqs:{len(case['seqs'])}")
+        if "prog" in obs:
+            t.append("corevm-prog")
         if "runs" in obs:
             n_hit = sum(1 for r in obs["runs"] if 1 in r["hits"])
             t.append("some-complete" if n_hit else "none-complete")
@@ -859,6 +1202,29 @@ def _sub_formulas(g):
 
 
 def shrink(case):
+    if case["kind"] == "ctx":
+        n = len(case["seqs"])
+        if n > 1:
+            for s in case["seqs"]:
+                yield dict(case, seqs=[s])
+            return
+        s = case["seqs"][0]
+        for i in range(len(s)):
+            if len(s) > 1:
+                yield dict(case, seqs=[s[:i] + s[i + 1:]])
+        return
+    if case.get("stmt") == "when":
+        cs = case["cases"]
+        for i in range(len(cs)):
+            if len(cs) > 1:
+                rest = cs[:i] + cs[i + 1:]
+                yield dict(case, cases=rest, g={"or": rest})
+            for sub in _sub_formulas(cs[i]):
+                new = cs[:i] + [sub] + cs[i + 1:]
+                yield dict(case, cases=new, g={"or": new})
+        if case.get("else"):
+            yield dict(case, **{"else": False})
+        return
     if case["kind"] == "e2e":
         n = len(case["seqs"])
         if n > 8:
